@@ -21,11 +21,6 @@ Definition classification : list (string * string * string * klass * string * st
    "slot of the current document in env.metadata (keyed by docname); Sphinx clears it before re-reading the document");
   ("myst_parser/mdit_to_docutils/base.py", "DocutilsRenderer._render_finalise", "self.sphinx_env.metadata.setdefault",
    WriteBeforeRead, "sphinx-metadata", "slot of the current document in env.metadata (keyed by docname)");
-  ("myst_parser/mdit_to_docutils/base.py", "DocutilsRenderer._render_finalise", "self.document.settings.myst_footnote_transition",
-   Leak, "shared-settings",
-   "OPEN (round 4): the per-document value is written onto document.settings under the name of the global option myst_footnote_transition; when ONE settings object is shared by several docutils publish calls, create_myst_config of the next document reads it back as the global value before that document writes its own");
-  ("myst_parser/mdit_to_docutils/base.py", "DocutilsRenderer._render_finalise", "self.document.settings.myst_footnote_sort",
-   Leak, "shared-settings", "OPEN (round 4): see myst_footnote_transition");
   ("myst_parser/mocking.py", "MockIncludeDirective.run", "self.document.settings.record_dependencies.add", WriteBeforeRead, "include",
    "dependency list of the document being parsed (settings object of the current document)");
   ("myst_parser/mocking.py", "MockRSTParser.parse", "roles._roles['']", RestoredInFinally, "default-role",
@@ -48,8 +43,9 @@ Definition classification : list (string * string * string * klass * string * st
 
 (* cells whose Leak classification is an open finding (reproduced by the search on every run) *)
 Definition open_leaks : list string := [
-  "self.document.settings.myst_footnote_transition";
-  "self.document.settings.myst_footnote_sort"
+  (* none today.  Until commit 0676245 (C11 builder): self.document.settings.myst_footnote_transition / myst_footnote_sort,
+     per-document values written onto a settings object that several publish calls may share, under the names of the global
+     options (found by the shared-settings histories of round 4). *)
 ].
 
 Definition entry_matches (w : gwrite) (e : string * string * string * klass * string * string) : bool :=
